@@ -1,3 +1,16 @@
 package kernel
-import ("testing";"math/rand")
-func TestRandSeed(t *testing.T){ rand.Seed(42); a:=rand.Int63(); rand.Seed(42); b:=rand.Int63(); if a!=b { t.Fatal("rand.Seed is a no-op") } }
+
+import (
+	"math/rand"
+	"testing"
+)
+
+func TestRandSeed(t *testing.T) {
+	rand.Seed(42)
+	a := rand.Int63()
+	rand.Seed(42)
+	b := rand.Int63()
+	if a != b {
+		t.Fatal("rand.Seed is a no-op")
+	}
+}
